@@ -289,6 +289,33 @@ class ExcFlow:
             return True, neg
         return False, False
 
+    def _handler_type_text(self, fi, t, mode, depth=0):
+        """Source text of the classes an ``except`` clause catches ('(A, B)' / 'A' / '()' for nothing / None for everything),
+        resolving computed types: a local bound once, a class-level tuple, a choice on the error mode."""
+        if t is None:
+            return None
+        if depth > 4:
+            return ast.unparse(t)
+        if isinstance(t, ast.IfExp):
+            is_mode, neg = self._mode_test(t.test)
+            if is_mode:
+                return self._handler_type_text(fi, t.body if (mode == "stop") != neg else t.orelse, mode, depth + 1)
+            return ast.unparse(t)
+        if isinstance(t, ast.Name) and self.f.resolve_class(fi.module, t.id) is None:
+            vals = self._local_values(fi, t.id)
+            if len(vals) == 1:
+                return self._handler_type_text(fi, vals[0], mode, depth + 1)
+            g = fi.module.globals.get(t.id)
+            if g is not None:
+                return self._handler_type_text(fi, g, mode, depth + 1)
+        if isinstance(t, ast.Attribute) and isinstance(t.value, ast.Name) and t.value.id in ("self", "cls") and fi.cls is not None:
+            ca = fi.cls.find_class_attr(t.attr)
+            if ca is not None:
+                return self._handler_type_text(fi, ca[1], mode, depth + 1)
+        if isinstance(t, ast.Tuple) and not t.elts:
+            return "()"
+        return ast.unparse(t)
+
     def _aliases_of_mode(self, fi) -> frozenset:
         out = set()
         seen: dict = {}
@@ -377,8 +404,8 @@ class ExcFlow:
                 for e in body:
                     caught = False
                     for h in s.handlers:
-                        ht = ast.unparse(h.type) if h.type is not None else None
-                        if self.caught_by(e[0], ht):
+                        ht = self._handler_type_text(fi, h.type, mode)
+                        if ht != "()" and self.caught_by(e[0], ht):
                             caught = True
                             break
                     if not caught:
@@ -390,8 +417,8 @@ class ExcFlow:
                     for e in hb:
                         if e[0] == "<reraise>":
                             for b in body:
-                                ht = ast.unparse(h.type) if h.type is not None else None
-                                if self.caught_by(b[0], ht):
+                                ht = self._handler_type_text(fi, h.type, mode)
+                                if ht != "()" and self.caught_by(b[0], ht):
                                     out.add(b)
                         else:
                             out.add(e)
